@@ -28,6 +28,13 @@ def run(ctx):
                            "revision": src.scalar(2), "validation": src.scalar(1), "flags": src.scalar(1),
                            "error_data_length": src.scalar(4), "fru_id": src.raw(16), "fru_text": src.raw(20),
                            "timestamp": src.raw(8), "data": [65 + src.below(26) for _ in range(src.choice([0, 4, 12]))]}})
+    for _ in range(200 if th else 40):
+        subs.append({"fam": "sub", "st": "gas_pci", "calls": [], "a": {"width": src.scalar(1), "access": src.choice(schema.ACCESS[1]),
+                     "device": src.scalar(1), "function": src.scalar(1), "register": src.scalar(2)}})
+    for kind in ("io", "mmio"):
+        for size in (1, 2, 4, 8):
+            for _ in range(20 if th else 4):
+                subs.append({"fam": "sub", "st": "gaddr", "calls": [], "a": {"kind": kind, "size": size, "addr": src.scalar(2 if kind == "io" else 8)}})
     for s in subs:
         s["every_prefix"] = False
     ctx.distinct = tc.distinct(programs + subs)
